@@ -34,28 +34,47 @@ Steps(p, au, path) ==
 \* "configs-leave": config lines whose last one is the level's own de-escalate command - the device leaves the configuration
 \* level by itself, the driver's cached level is stale; the operation after it is a configs at the same level, which must find
 \* its way back (AcquirePriv reads the prompt, it does not trust the cache)
-OpKinds == << "acquire", "command", "configs", "configs-at", "acquire", "interactive", "command", "acquire-unknown", "config", "configs-leave" >>
+\* "rename": the device's prompts change (host renamed); the driver's level patterns are edited in place and UpdatePrivileges is
+\* called - nothing is sent, everything after it must still work.
+\* "configs-stalled": the device acts on the first transition command of the path but its answer never arrives: the operation
+\* times out with the device one step along the path; the operation after it is a plain command, which must find its way from
+\* where the device really is (the cached level must not survive a transition that was started).
+OpKinds == << "acquire", "command", "configs", "configs-at", "acquire", "interactive", "command", "acquire-unknown", "config", "configs-leave",
+              "rename", "configs-stalled" >>
 
-RECURSIVE RunOps(_, _, _, _, _, _, _, _)
-\* returns the sequence of per-operation expectations, threading the device mode
-RunOps(m, p, au, def, conf, mode, j, left) ==
-  IF j > 1 + Below(4, m, 40) + (IF left THEN 1 ELSE 0) THEN <<>>
+RECURSIVE RunOps(_, _, _, _, _, _, _, _, _)
+\* returns the sequence of per-operation expectations, threading the device mode; left: "" | "leave" | "stalled" (what the previous operation was)
+RunOps(m, p, au, def, conf, mode, j, left, tw) ==
+  IF j > 1 + Below(4, m, 40) + (IF left # "" THEN 1 ELSE 0) THEN <<>>
   ELSE LET kind0 == Pick(OpKinds, m, 50 + j)
-           kind == IF left THEN "configs" ELSE IF kind0 = "configs-leave" /\ p[conf] = NONE THEN "configs" ELSE kind0
+           pathc == PathI(p, mode, conf)
+           \* a stalled transition is only generated for a first step that needs no password (the dialogue would hang in the middle otherwise)
+           \* and only without twin levels: after a transition that was started the cache is rightly forgotten, and without it twins cannot be told apart
+           stallable == ~tw /\ Len(pathc) >= 2 /\ (p[pathc[1]] = pathc[2] \/ au[pathc[2]] = "no")
+           kind == CASE left = "leave" -> "configs"
+                     [] left = "stalled" -> "command"
+                     [] kind0 = "configs-leave" /\ p[conf] = NONE -> "configs"
+                     [] kind0 = "configs-stalled" /\ ~stallable -> "configs"
+                     [] OTHER -> kind0
            nn   == Len(p)
            tgt  == CASE kind = "acquire" -> 1 + Below(nn, m, 60 + j)
                      [] kind = "configs-at" -> 1 + Below(nn, m, 60 + j)
                      [] kind \in {"command", "interactive"} -> def
-                     [] kind \in {"configs", "config", "configs-leave"} -> conf
+                     [] kind \in {"configs", "config", "configs-leave", "configs-stalled"} -> conf
                      [] OTHER -> 0
-           steps == IF tgt = 0 THEN <<>> ELSE Steps(p, au, PathI(p, mode, tgt))
+           steps0 == IF tgt = 0 THEN <<>> ELSE Steps(p, au, PathI(p, mode, tgt))
+           steps == IF kind = "configs-stalled" THEN << steps0[1] >> ELSE steps0
            pay   == CASE kind \in {"command", "interactive"} -> << [kind |-> "line", level |-> tgt, mode |-> tgt] >>
                       [] kind \in {"configs", "configs-at", "config"} -> << [kind |-> "line", level |-> tgt, mode |-> tgt], [kind |-> "line", level |-> tgt, mode |-> tgt] >>
                       [] kind = "configs-leave" -> << [kind |-> "line", level |-> tgt, mode |-> tgt], [kind |-> "deesc", level |-> tgt, mode |-> tgt] >>
                       [] OTHER -> <<>>
-           nmode == IF tgt = 0 THEN mode ELSE IF kind = "configs-leave" THEN p[tgt] ELSE tgt
-       IN << [op |-> kind, target |-> tgt, class |-> IF tgt = 0 THEN "privilege" ELSE "ok",
-              steps |-> steps \o pay, final |-> nmode] >> \o RunOps(m, p, au, def, conf, nmode, j + 1, kind = "configs-leave")
+           nmode == CASE tgt = 0 -> mode
+                      [] kind = "configs-leave" -> p[tgt]
+                      [] kind = "configs-stalled" -> pathc[2]
+                      [] OTHER -> tgt
+       IN << [op |-> kind, target |-> tgt, class |-> CASE kind = "rename" -> "ok" [] kind = "configs-stalled" -> "timeout" [] tgt = 0 -> "privilege" [] OTHER -> "ok",
+              steps |-> steps \o pay, final |-> nmode] >>
+          \o RunOps(m, p, au, def, conf, nmode, j + 1, CASE kind = "configs-leave" -> "leave" [] kind = "configs-stalled" -> "stalled" [] OTHER -> "", tw)
 
 Scn(m) ==
   LET nn   == 2 + Below(3, m, 1)                                  \* 2..4 levels
@@ -72,7 +91,7 @@ Scn(m) ==
       st0  == 1 + Below(nn, m, 4)
       st   == IF st0 = twin[1] \/ st0 = twin[2] THEN 1 ELSE st0
   IN [id |-> m, n |-> nn, parent |-> p, auth |-> au, def |-> def, conf |-> conf, start |-> st, twin |-> twin,
-      ops |-> RunOps(m, p, au, def, conf, st, 1, FALSE)]
+      ops |-> RunOps(m, p, au, def, conf, st, 1, "", twin # <<0, 0>>)]
 
 Init == n = 0
 Next == n < Count /\ n' = n + 1 /\ PrintT("SCN " \o ToJson(Scn(n)))
